@@ -52,7 +52,20 @@ pub fn opts_to_flags(o: &HOpts, variant: u64) -> Option<Vec<String>> {
         HStrip::Safe => a.push("-s".into()),
         HStrip::All => { a.push("--strip".into()); a.push("all".into()); }
         HStrip::Strip(v) => { if v.is_empty() { return None; } a.push("--strip".into()); a.push(names(v)); }
-        HStrip::Keep(v) => { if v.is_empty() { return None; } a.push("--keep".into()); a.push(names(v)); }
+        HStrip::Keep(v) => {
+            if v.is_empty() { return None; }
+            // a list that holds the whole display set is spelled with the manual's word for it - in front of, between or
+            // behind the other names
+            let display: [[u8; 4]; 7] = [*b"cICP", *b"iCCP", *b"sRGB", *b"pHYs", *b"acTL", *b"fcTL", *b"fdAT"];
+            let list = if display.iter().all(|d| v.contains(d)) && variant % 3 != 0 {
+                let mut parts: Vec<String> = v.iter().filter(|n| !display.contains(n)).map(|n| String::from_utf8_lossy(n).to_string()).collect();
+                let at = ((variant / 3) as usize) % (parts.len() + 1);
+                parts.insert(at, "display".into());
+                parts.join(",")
+            } else { names(v) };
+            a.push("--keep".into());
+            a.push(list);
+        }
     }
     Some(a)
 }
